@@ -12,6 +12,9 @@ CHECK_DEADLOCK FALSE
 CTX_TRACE = "SPECIFICATION TraceSpec\nPOSTCONDITION TraceAccepted\nCHECK_DEADLOCK FALSE\n"
 
 
+REPLAY = ("TraceSearch", engine.TRACE_CFG % '"C13"')
+
+
 def signature(ev):
     docs = lambda R: set(m[0] for m in R)
     if docs(ev["main"]) != docs(ev["nob"]):
